@@ -85,6 +85,9 @@ CLAIMS = {
               "an uncovered one with the operator's own rows: no assignment is yielded twice. C05_call_sites_as_modelled - the translator "
               "locates in Comparator / AND / ElseIf ._evaluate__ the one coverage test, its position (ElseIf: only for a row the left side "
               "rejected), the replay through _most_general_(retrieve(...)) and the storing with the current row's flag, on every run. "
+              "C05_cached_evaluator - the operator of those theorems instantiated with the P-model's evaluator of ANY basic condition "
+              "(values encoded by their positions in the domains): their hypotheses are proved from the evaluator's partition theorem, so "
+              "caching the evaluation of a sub-condition is transparent for every history of incoming bindings, with nothing left abstract. "
               "NOT proved: which yield_when_false a row was stored under and the composition of the call sites inside one evaluator - "
               "covered by the correspondence check: every "
               "generated query (all shapes) is run twice with caching disabled and twice enabled on fresh objects and the four row "
